@@ -95,6 +95,44 @@ class Session:
             self._diff(s, res, label)
         return res, model
 
+    def solve_external(self, cons, timeout_ms=None, tactic=None, label=''):
+        """Decide a query in a separate z3 process (the z3 5.1 command line on the SMT-LIB2 text of the query) under a HARD
+        wall-clock limit: exact simplex on large linearised systems does not poll z3's timer, an in-process call can
+        run for hours.  No model is returned ('sat' carries None)."""
+        import shutil
+        z3 = z3mod()
+        exe = shutil.which('z3-new') or shutil.which('z3')
+        if exe is None:
+            return self.solve(cons, timeout_ms, tactic, label)
+        s = z3.Solver()
+        for c in cons:
+            s.add(c)
+        text = s.to_smt2()
+        if tactic is not None:
+            tt = ' '.join(tactic) if isinstance(tactic, (tuple, list)) else tactic
+            text = text.replace('(check-sat)', '(check-sat-using (then %s))' % tt)
+        secs = max(1, int((timeout_ms or self.timeout_ms) / 1000))
+        with tempfile.NamedTemporaryFile('w', suffix='.smt2', delete=False, dir=_scratch()) as f:
+            f.write(text)
+            path = f.name
+        t = time.time()
+        res = 'unknown'
+        try:
+            p = subprocess.run([exe, '-T:%d' % secs, path], capture_output=True, text=True, timeout=secs + 5)
+            out = p.stdout.strip().splitlines()
+            if out and out[0] in ('sat', 'unsat') and not any('(error' in l for l in out):
+                res = out[0]
+        except subprocess.TimeoutExpired:
+            res = 'unknown'
+        finally:
+            try:
+                os.unlink(path)
+            except OSError:
+                pass
+        self.stats.queries += 1
+        self.stats.add_time('z3-cli(%s)' % os.path.basename(exe), time.time() - t)
+        return res, None
+
     def _diff(self, solver, res, label):
         """Re-run the query with the z3 4.8.12 binary through SMT-LIB2 and compare."""
         if not os.path.exists(Z3_OLD):
